@@ -116,6 +116,27 @@ def check(run):
                                      "list": [world_term(t) for t in s.suggest("body", text, limit=limit, maxdist=k, prefix=p)]}))
                         run.count(len(obs))
                         qs.append({"q": aq, "obs": obs})
+            # Searcher.correct_query: typed queries mixing words that are terms with words that are not
+            from whoosh import qparser
+            parser = qparser.QueryParser("body", ix.schema)
+            absent = [w for w in all_words(letters, maxlen + 1) if len(w) == maxlen + 1] + \
+                     [[3], [1, 3], [3, 2, 1], [2, 3, 3, 3, 3, 3]]
+            for _ in range(15 if quick else 120):
+                toks = [list(rng.choice(absent)) if rng.random() < 0.5 else list(rng.choice(words))
+                        for _ in range(rng.randrange(1, 4))]
+                qstring = u" ".join(world.term_text(t) for t in toks)
+                k, p = rng.choice([1, 1, 2]), rng.choice([0, 0, 1])
+                obs = []
+                try:
+                    q = parser.parse(qstring)
+                    corr = s.correct_query(q, qstring, maxdist=k, prefix=p)
+                    obs.append({"kind": "correct", "path": "correct_query(%dseg)" % nseg, "f": "body", "words": toks, "k": k,
+                                "p": p, "qterms": [world_term(t.text) for t in corr.query.all_tokens()],
+                                "sterms": [world_term(x) for x in corr.string.split()]})
+                except Exception as ex:
+                    obs.append({"kind": "error", "path": "correct_query", "err": type(ex).__name__, "msg": str(ex)[:100]})
+                run.count(len(obs))
+                qs.append({"q": {"op": "null"}, "obs": obs})
         cases.append({"idx": idx, "qs": qs})
         metas.append({"plan": ["lexicon of %d words" % len(words), nseg], "nseg": nseg, "deleted": 0})
     rejects = qobs.judge(run, cases, name="QueryCheck-fuzzy", chunk=1)
